@@ -448,4 +448,18 @@ theorem obtain_graph_clean (gt : GType) (p : Parsed) (e : Option CG) (fuel : Nat
     obtainGraph gt p e fuel ds ≠ .foreign :=
   ⟨fun err h => obtainGraph_only gt p e fuel ds err h, obtainGraph_noForeign gt p e fuel ds⟩
 
+/-- T-C15.4d the same for a request as `parse_graph_argument` produces it (the construction is
+one of the graph type, `splitedges` only for simple graphs, third-party generators return `Graph`
+objects — `FromParser`): the outcome is a graph, a `ValueError`, or — `regular` only, and only if
+every attempt within the restart budget failed — a `RecursionError`.  No `TypeError`, no
+`AssertionError`, no `ZeroDivisionError`, no `IndexError`, no third-party exception. -/
+theorem obtain_graph_clean_parsed (gt : GType) (p : Parsed) (e : Option CG) (fuel : Nat) (ds : List Draw)
+    (hp : FromParser gt p e) (err : Err) (h : obtainGraph gt p e fuel ds = .exc err) :
+    err = .valueError ∨ (p.cons = .regular ∧ err = .recursion) :=
+  obtainGraph_only_parsed gt p e fuel hp ds err h
+
+example : FromParser .bipartite ⟨.glrm, [⟨some 3, some (3, 1)⟩, ⟨some 3, some (3, 1)⟩, ⟨some 7, some (7, 1)⟩],
+    none, some [⟨some 1, some (1, 1)⟩, ⟨some 1, some (1, 1)⟩], none, none, none⟩ none :=
+  ⟨rfl, fun _ => rfl, fun g h => by cases h⟩
+
 end Cnfgen.C15
